@@ -8,10 +8,37 @@ def _O(name):
     return TRec(name, ident=TInt(0, 99))
 
 
+_STAGE_PARAMS = {
+    "place": ("vertices_resources", "nets", "machine", "constraints"),
+    "allocate": ("vertices_resources", "nets", "machine", "constraints", "placements"),
+    "route": ("vertices_resources", "nets", "machine", "constraints", "placements", "allocations", "core_resource"),
+    "application_map": ("vertices_applications", "placements", "allocations", "core_resource"),
+    "routing_tables": ("routes", "net_keys"),
+    "tables": ("routes", "net_keys"),
+    "machine": ("system_info", "core_resource", "sdram_resource", "sram_resource"),
+    "core_constraints": ("system_info", "core_resource"),
+    "targets": ("system_info",),
+    "minimised": ("routing_tables", "target_lengths", "methods"),
+}
+
+
+def _by_name(tag, args, kwargs):
+    """the arguments of a recorded call BY PARAMETER NAME (whether the code passes them by position or by keyword is its business)"""
+    names = _STAGE_PARAMS[tag]
+    if len(args) > len(names):
+        raise ValueError("more positional arguments than %s takes" % tag)
+    d = dict(zip(names, args))
+    for k, v in kwargs.items():
+        if k in d:
+            raise ValueError("argument %s given twice" % k)
+        d[k] = v
+    return tuple(sorted(d.items()))
+
+
 def _stage(tag, ident):
     def handler(E, obj, args, kwargs, st, node):
         s = st.copy()
-        s.trace = ListV(s.trace.items + ((tag, tuple(args), tuple(sorted(kwargs.items()))),))
+        s.trace = ListV(s.trace.items + ((tag, _by_name(tag, args, kwargs)),))
         return [(s, ObjV(tag.capitalize() + "Result", {"ident": ident}), None)]
     return handler
 
@@ -19,9 +46,20 @@ def _stage(tag, ident):
 def _fn(tag, ident):
     def handler(E, args, kwargs, st, node):
         s = st.copy()
-        s.trace = ListV(s.trace.items + ((tag, tuple(args), tuple(sorted(kwargs.items()))),))
+        s.trace = ListV(s.trace.items + ((tag, _by_name(tag, args, kwargs)),))
         return [(s, ObjV(tag.capitalize() + "Result", {"ident": ident}))]
     return handler
+
+
+def _arg(call, name):
+    for k, v in call[1]:
+        if k == name:
+            return v
+    return None
+
+
+def _nargs(call):
+    return len(call[1])
 
 
 def _mk_constraint(kind):
@@ -39,17 +77,19 @@ _CONSTRAINT = TRec("Constraint", ident=TInt(0, 9), resource=TRec("Resource", ide
 
 
 def _stages_ok(_trace, n, vertices_resources, vertices_applications, nets, net_keys, machine, core_resource, result):
-    return (len(_trace) == 5 and _trace[0][0] == "place" and _trace[1][0] == "allocate" and _trace[2][0] == "route"
-            and len(_trace[0][1][3]) == n
-            and _trace[0][1][0].ident == vertices_resources.ident and _trace[0][1][1].ident == nets.ident and _trace[0][1][2].ident == machine.ident
-            and _trace[1][1][0].ident == vertices_resources.ident and _trace[1][1][2].ident == machine.ident and len(_trace[1][1][3]) == n
-            and _trace[1][1][4].ident == 1
-            and _trace[2][1][0].ident == vertices_resources.ident and _trace[2][1][1].ident == nets.ident and _trace[2][1][2].ident == machine.ident
-            and len(_trace[2][1][3]) == n and _trace[2][1][4].ident == 1 and _trace[2][1][5].ident == 2
-            and _trace[2][1][6].ident == core_resource.ident and len(_trace[2][1]) == 7 and len(_trace[2][2]) == 0
-            and _trace[3][0] == "application_map" and _trace[3][1][0].ident == vertices_applications.ident and _trace[3][1][1].ident == 1
-            and _trace[3][1][2].ident == 2 and _trace[3][1][3].ident == core_resource.ident
-            and _trace[4][0] == "routing_tables" and _trace[4][1][0].ident == 3 and _trace[4][1][1].ident == net_keys.ident
+    p, a, r, m, t = _trace[0], _trace[1], _trace[2], _trace[3], _trace[4]
+    return (len(_trace) == 5 and p[0] == "place" and a[0] == "allocate" and r[0] == "route" and m[0] == "application_map" and t[0] == "routing_tables"
+            and len(_arg(p, "constraints")) == n and len(_arg(a, "constraints")) == n and len(_arg(r, "constraints")) == n
+            and _arg(p, "vertices_resources").ident == vertices_resources.ident and _arg(p, "nets").ident == nets.ident
+            and _arg(p, "machine").ident == machine.ident and _nargs(p) == 4
+            and _arg(a, "vertices_resources").ident == vertices_resources.ident and _arg(a, "machine").ident == machine.ident
+            and _arg(a, "placements").ident == 1 and _nargs(a) == 5
+            and _arg(r, "vertices_resources").ident == vertices_resources.ident and _arg(r, "nets").ident == nets.ident
+            and _arg(r, "machine").ident == machine.ident and _arg(r, "placements").ident == 1 and _arg(r, "allocations").ident == 2
+            and _arg(r, "core_resource").ident == core_resource.ident and _nargs(r) == 7
+            and _arg(m, "vertices_applications").ident == vertices_applications.ident and _arg(m, "placements").ident == 1
+            and _arg(m, "allocations").ident == 2 and _arg(m, "core_resource").ident == core_resource.ident
+            and _arg(t, "routes").ident == 3 and _arg(t, "net_keys").ident == net_keys.ident
             and result[0].ident == 1 and result[1].ident == 2 and result[2].ident == 4 and result[3].ident == 5)
 
 
@@ -82,7 +122,7 @@ class WrapperHandsOn:
 
     def ensures_every_stage_sees_the_same_problem_and_the_results_of_the_stages_before(
             vertices_resources, vertices_applications, nets, net_keys, machine, constraints, core_resource, sdram_resource, result, _trace):
-        cons = _trace[0][1][3]
+        cons = _arg(_trace[0], "constraints")
         return (_stages_ok(_trace, 3, vertices_resources, vertices_applications, nets, net_keys, machine, core_resource, result)
                 and any(c.ident == constraints[0].ident for c in cons)
                 and any(c.ident == 80 and c.resource.ident == core_resource.ident and c.lo == 0 and c.hi == 1 for c in cons)
@@ -104,7 +144,7 @@ class WrapperHandsOnPlain:
     def ensures_every_stage_sees_the_same_problem_and_the_results_of_the_stages_before(
             vertices_resources, vertices_applications, nets, net_keys, machine, constraints, core_resource, result, _trace):
         return (_stages_ok(_trace, 1, vertices_resources, vertices_applications, nets, net_keys, machine, core_resource, result)
-                and _trace[0][1][3][0].ident == constraints[0].ident)
+                and _arg(_trace[0], "constraints")[0].ident == constraints[0].ident)
 
 
 # ---- place_and_route_wrapper: from a probed machine to tables ------------------------------------------------------------------------------
@@ -116,8 +156,9 @@ _EXT2 = {"Placer.__call__": _stage("place", 1), "Allocator.__call__": _stage("al
 
 def _core_constraints(E, args, kwargs, st, node):
     s = st.copy()
-    s.trace = ListV(s.trace.items + (("core_constraints", tuple(args), tuple(sorted(kwargs.items()))),))
-    mk = lambda i: ObjV("Constraint", {"ident": i, "resource": args[1], "lo": 0, "hi": 1, "amount": 0})     # noqa: E731
+    s.trace = ListV(s.trace.items + (("core_constraints", _by_name("core_constraints", args, kwargs)),))
+    res_ = args[1] if len(args) > 1 else kwargs["core_resource"]
+    mk = lambda i: ObjV("Constraint", {"ident": i, "resource": res_, "lo": 0, "hi": 1, "amount": 0})     # noqa: E731
     return [(s, ListV((mk(70), mk(71))))]
 
 
@@ -144,23 +185,25 @@ class PlaceAndRouteWrapperHandsOn:
             vertices_resources, vertices_applications, nets, net_keys, system_info, constraints, minimise_tables_methods, core_resource,
             sdram_resource, sram_resource, result, _trace):
         t = _trace
-        cons = t[2][1][3]
-        return (len(t) == 9
-                and t[0][0] == "machine" and t[0][1][0].ident == system_info.ident and len(t[0][1]) == 1
-                and t[0][2][0][0] == "core_resource" and t[0][2][0][1].ident == core_resource.ident
-                and t[0][2][1][0] == "sdram_resource" and t[0][2][1][1].ident == sdram_resource.ident
-                and t[0][2][2][0] == "sram_resource" and t[0][2][2][1].ident == sram_resource.ident
-                and t[1][0] == "core_constraints" and t[1][1][0].ident == system_info.ident and t[1][1][1].ident == core_resource.ident
-                and t[2][0] == "place" and t[2][1][0].ident == vertices_resources.ident and t[2][1][1].ident == nets.ident and t[2][1][2].ident == 6
+        cons = _arg(t[2], "constraints")
+        return (len(t) == 9 and [c[0] for c in t] == ["machine", "core_constraints", "place", "allocate", "route", "application_map", "tables",
+                                                     "targets", "minimised"]
+                and _arg(t[0], "system_info").ident == system_info.ident and _arg(t[0], "core_resource").ident == core_resource.ident
+                and _arg(t[0], "sdram_resource").ident == sdram_resource.ident and _arg(t[0], "sram_resource").ident == sram_resource.ident
+                and _arg(t[1], "system_info").ident == system_info.ident and _arg(t[1], "core_resource").ident == core_resource.ident
+                and _arg(t[2], "vertices_resources").ident == vertices_resources.ident and _arg(t[2], "nets").ident == nets.ident
+                and _arg(t[2], "machine").ident == 6 and _nargs(t[2]) == 4
                 and len(cons) == 3 and any(c.ident == 70 for c in cons) and any(c.ident == 71 for c in cons)
                 and any(c.ident == constraints[0].ident for c in cons)
-                and t[3][0] == "allocate" and t[3][1][0].ident == vertices_resources.ident and t[3][1][2].ident == 6 and len(t[3][1][3]) == 3
-                and t[3][1][4].ident == 1
-                and t[4][0] == "route" and t[4][1][0].ident == vertices_resources.ident and t[4][1][1].ident == nets.ident and t[4][1][2].ident == 6
-                and len(t[4][1][3]) == 3 and t[4][1][4].ident == 1 and t[4][1][5].ident == 2 and t[4][1][6].ident == core_resource.ident
-                and t[5][0] == "application_map" and t[5][1][0].ident == vertices_applications.ident and t[5][1][1].ident == 1
-                and t[5][1][2].ident == 2 and t[5][1][3].ident == core_resource.ident
-                and t[6][0] == "tables" and t[6][1][0].ident == 3 and t[6][1][1].ident == net_keys.ident
-                and t[7][0] == "targets" and t[7][1][0].ident == system_info.ident
-                and t[8][0] == "minimised" and t[8][1][0].ident == 5 and t[8][1][1].ident == 8 and t[8][1][2].ident == minimise_tables_methods.ident
+                and _arg(t[3], "vertices_resources").ident == vertices_resources.ident and _arg(t[3], "machine").ident == 6
+                and len(_arg(t[3], "constraints")) == 3 and _arg(t[3], "placements").ident == 1 and _nargs(t[3]) == 5
+                and _arg(t[4], "vertices_resources").ident == vertices_resources.ident and _arg(t[4], "nets").ident == nets.ident
+                and _arg(t[4], "machine").ident == 6 and len(_arg(t[4], "constraints")) == 3 and _arg(t[4], "placements").ident == 1
+                and _arg(t[4], "allocations").ident == 2 and _arg(t[4], "core_resource").ident == core_resource.ident and _nargs(t[4]) == 7
+                and _arg(t[5], "vertices_applications").ident == vertices_applications.ident and _arg(t[5], "placements").ident == 1
+                and _arg(t[5], "allocations").ident == 2 and _arg(t[5], "core_resource").ident == core_resource.ident
+                and _arg(t[6], "routes").ident == 3 and _arg(t[6], "net_keys").ident == net_keys.ident
+                and _arg(t[7], "system_info").ident == system_info.ident
+                and _arg(t[8], "routing_tables").ident == 5 and _arg(t[8], "target_lengths").ident == 8
+                and _arg(t[8], "methods").ident == minimise_tables_methods.ident
                 and result[0].ident == 1 and result[1].ident == 2 and result[2].ident == 4 and result[3].ident == 9)
